@@ -45,7 +45,7 @@ ASSUMPTIONS = [
     "hostile absolute paths and traversals stay inside the scratch area (the harness must not touch the real file system)",
     "allowed resource directories: <repo>/pdfminer/cmap and the directory named by CMAP_PATH",
 ]
-PROBES = ["site:encoding-name", "site:cmapname-stream", "site:usecmap", "site:registry-ordering", "site:image-name", "site:image-attr", "name:dotdot", "name:absolute", "name:nul", "name:long", "name:existing-file", "name:separator", "name:sibling-prefix", "name:lookalike", "state:CMAP_PATH unset", "image:oversize", "state:long run of occupied names", "state:outdir-absent", "state:outdir-nested", "state:preexisting-image-name", "second export in the same process", "image exported", "bait file present at traversal target"]
+PROBES = ["LTImage objects of one layout exported by two writers", "site:encoding-name", "site:cmapname-stream", "site:usecmap", "site:registry-ordering", "site:image-name", "site:image-attr", "name:dotdot", "name:absolute", "name:nul", "name:long", "name:existing-file", "name:separator", "name:sibling-prefix", "name:lookalike", "state:CMAP_PATH unset", "image:oversize", "state:long run of occupied names", "state:outdir-absent", "state:outdir-nested", "state:preexisting-image-name", "second export in the same process", "image exported", "bait file present at traversal target"]
 TIERS = {
     "quick": {"batches": 16, "runs": 500, "budget_s": 120},
     "thorough": {"batches": 128, "runs": 500, "budget_s": 900},
@@ -302,6 +302,41 @@ def child(data, fsroot, sim_cmap_dir, outdir, mode, twice, scratch_top, cmap_env
         except Exception as e:
             res["err2"] = "%s@%s: %r" % (type(e).__name__, where(e), e)
         res["events2"] = [list(map(str, e)) for e in seams.FSMON.stop()]
+    res["phases"] = []
+    if twice and os.path.isdir(outdir):
+        # the layout computed once, its LTImage objects exported by two writers in turn (the second into a directory of its
+        # own): each writer keeps to its directory and to names that are free when it comes to them
+        from pdfminer.image import ImageWriter
+        from pdfminer.layout import LTContainer, LTImage
+
+        try:
+            pages = list(HL.extract_pages(io.BytesIO(data)))
+        except Exception:
+            pages = []
+        imgs = []
+
+        def walk(x):
+            if isinstance(x, LTImage):
+                imgs.append(x)
+            if isinstance(x, LTContainer):
+                for c in x:
+                    walk(c)
+
+        for pg in pages:
+            walk(pg)
+        for d in (outdir, os.path.join(outdir, "again")):
+            existing = [os.path.join(r, fn) for r, _, fns in os.walk(outdir) for fn in fns]
+            seams.FSMON.start()
+            try:
+                iw = ImageWriter(d)
+                for im in imgs:
+                    try:
+                        iw.export_image(im)
+                    except Exception:
+                        pass
+            except Exception:
+                pass
+            res["phases"].append({"dir": d, "existing": existing, "events": [list(map(str, e)) for e in seams.FSMON.stop()]})
     return res
 
 
@@ -463,6 +498,19 @@ def run(tape, ctx, item=None):
                     devs.append(Dev("C15:overwrite-existing-file", "second export opened %r for writing, which existed when it started; %s" % (ev[1].replace(scratch_top, "<SCRATCH>"), cfg)))
                 elif not real.startswith(out_real + os.sep):
                     devs.append(Dev("C15:write-outside-output-dir", "second export: open(%r) resolves outside the output directory; %s" % (ev[1].replace(scratch_top, "<SCRATCH>"), cfg)))
+        for ph in res.get("phases", []):
+            ph_real = os.path.realpath(ph["dir"])
+            ex = {os.path.realpath(x) for x in ph["existing"]}
+            for ev in ph["events"]:
+                if ev[0] == "open" and any(c in ev[2] for c in "wax+") and not ev[1].isdigit():
+                    real = os.path.realpath(ev[1] if os.path.isabs(ev[1]) else os.path.join(fsroot, "work", ev[1]))
+                    if real in ex:
+                        devs.append(Dev("C15:overwrite-existing-file", "a writer for %s, exporting the images of a layout computed before, opened %r for writing, which existed when it started; %s" % (os.path.relpath(ph["dir"], fsroot), ev[1].replace(scratch_top, "<SCRATCH>"), cfg)))
+                    elif not real.startswith(ph_real + os.sep):
+                        devs.append(Dev("C15:write-outside-output-dir", "a writer for %s opened %r for writing; %s" % (os.path.relpath(ph["dir"], fsroot), ev[1].replace(scratch_top, "<SCRATCH>"), cfg)))
+                elif ev[0] in ("os.rename", "os.remove", "os.rmdir", "os.link", "os.symlink", "os.truncate", "shutil.rmtree"):
+                    devs.append(Dev("C15:%s" % ev[0], "%r; %s" % ([x.replace(scratch_top, "<SCRATCH>") for x in ev], cfg)))
+            ctx.probe("LTImage objects of one layout exported by two writers")
         for p in res.get("sentinels", []):
             try:
                 with open(_guard(scratch_top, p), "rb") as fh:
